@@ -81,47 +81,95 @@ def _parse_other_shape(ctx: Ctx, mod, cls) -> None:
                   "_parse_other must return [self, <wrapped other>]", facts={"returns": u(r.value) if r.value else None})
 
 
-def _children_order(fn: ast.FunctionDef, meths: dict, depth: int = 0):
+def _children_order(fn: ast.FunctionDef, meths: dict, depth: int = 0, consts: dict | None = None):
     """Abstractly interpret an overload; returns (order, member) where order is
     ('self','other') / ('other','self') and member the Operations member, or None when
-    the overload is not of the recognised constructive form."""
+    the overload is not of the recognised constructive form.  `consts` binds parameter names of a
+    private helper to constants of the call site (an Operations member or a bool)."""
     env: dict[str, tuple] = {}
-    for s in body_nodoc(fn):
-        if isinstance(s, (ast.If, ast.Raise, ast.Assert, ast.Expr)):
-            # guards that only raise are irrelevant to the order (e.g. __pow__'s SparseArray test)
-            if isinstance(s, ast.If) and any(isinstance(n, ast.Return) for n in ast.walk(s)):
-                return None
-            continue
-        if isinstance(s, ast.Assign) and len(s.targets) == 1 and isinstance(s.targets[0], ast.Name):
-            v = _eval_children(s.value, env)
-            if v is not None:
-                env[s.targets[0].id] = v
-            continue
-        if isinstance(s, ast.Assign) and len(s.targets) == 1 and isinstance(s.targets[0], (ast.Tuple, ast.List)) \
-                and all(isinstance(e_, ast.Name) for e_ in s.targets[0].elts):
-            # a, b = <children>: element-wise binding
-            v = _eval_children(s.value, env)
-            if v is not None and len(v) == len(s.targets[0].elts):
-                for e_, role in zip(s.targets[0].elts, v):
-                    env["@" + e_.id] = role
-                continue
-            return None
-        if isinstance(s, ast.Return) and isinstance(s.value, ast.Call):
-            c = s.value
-            # delegation self.__X__(other)
-            if (isinstance(c.func, ast.Attribute) and u(c.func.value) == "self" and c.func.attr in meths
-                    and len(c.args) == 1 and u(c.args[0]) == "other" and depth < 3):
-                return _children_order(meths[c.func.attr], meths, depth + 1)
-            ch = kwarg(c, "children")
-            opn = kwarg(c, "operation")
-            if ch is not None and opn is not None and _ops_member(opn):
-                order = _eval_children(ch, env)
-                if order is None:
-                    return None
-                return order, _ops_member(opn)
-            return None
+    consts = dict(consts or {})
+
+    def truth(t: ast.expr):
+        if isinstance(t, ast.Name) and isinstance(consts.get(t.id), bool):
+            return consts[t.id]
+        if isinstance(t, ast.UnaryOp) and isinstance(t.op, ast.Not):
+            v = truth(t.operand)
+            return None if v is None else (not v)
         return None
-    return None
+
+    def member_of(e: ast.expr):
+        if _ops_member(e):
+            return _ops_member(e)
+        if isinstance(e, ast.Name) and isinstance(consts.get(e.id), str):
+            return consts[e.id]
+        return None
+
+    def block(stmts):
+        for s in stmts:
+            if isinstance(s, ast.If):
+                tv = truth(s.test)
+                if tv is not None:
+                    r = block(s.body if tv else s.orelse)
+                    if r is not None:
+                        return r
+                    continue
+                # guards that only raise are irrelevant to the order (e.g. __pow__'s SparseArray test)
+                if any(isinstance(n, ast.Return) for n in ast.walk(s)):
+                    return "undecided"
+                continue
+            if isinstance(s, (ast.Raise, ast.Assert, ast.Expr, ast.Pass)):
+                continue
+            if isinstance(s, ast.Assign) and len(s.targets) == 1 and isinstance(s.targets[0], ast.Name):
+                v = _eval_children(s.value, env)
+                if v is not None:
+                    env[s.targets[0].id] = v
+                continue
+            if isinstance(s, ast.Assign) and len(s.targets) == 1 and isinstance(s.targets[0], (ast.Tuple, ast.List)) \
+                    and all(isinstance(e_, ast.Name) for e_ in s.targets[0].elts):
+                v = _eval_children(s.value, env)
+                if v is not None and len(v) == len(s.targets[0].elts):
+                    for e_, role in zip(s.targets[0].elts, v):
+                        env["@" + e_.id] = role
+                    continue
+                return "undecided"
+            if isinstance(s, ast.Return) and isinstance(s.value, ast.Call):
+                c = s.value
+                if isinstance(c.func, ast.Attribute) and u(c.func.value) == "self" and c.func.attr in meths and depth < 3:
+                    callee = meths[c.func.attr]
+                    params = [p_.arg for p_ in callee.args.args][1:]
+                    bound = {}
+                    for i, a_ in enumerate(c.args):
+                        if i < len(params):
+                            bound[params[i]] = a_
+                    for k in c.keywords:
+                        if k.arg:
+                            bound[k.arg] = k.value
+                    # defaults of the callee
+                    dflt = dict(zip(reversed(params), reversed(callee.args.defaults)))
+                    for pn, dv in dflt.items():
+                        bound.setdefault(pn, dv)
+                    if "other" in bound and u(bound["other"]) != "other":
+                        return "undecided"
+                    cc = {}
+                    for pn, ex in bound.items():
+                        if isinstance(ex, ast.Constant) and isinstance(ex.value, bool):
+                            cc[pn] = ex.value
+                        elif member_of(ex):
+                            cc[pn] = member_of(ex)
+                    return _children_order(callee, meths, depth + 1, cc) or "undecided"
+                ch = kwarg(c, "children")
+                opn = kwarg(c, "operation")
+                if ch is not None and opn is not None and member_of(opn):
+                    order = _eval_children(ch, env)
+                    if order is None:
+                        return "undecided"
+                    return order, member_of(opn)
+                return "undecided"
+            return "undecided"
+        return None
+
+    r = block(body_nodoc(fn))
+    return None if r in (None, "undecided") else r
 
 
 def _eval_children(e: ast.expr, env: dict):
@@ -168,10 +216,11 @@ def run(ctx: Ctx) -> None:
         ctx.repo.module(r) for r in ctx.repo.all_py(AD_DIR)]
     for m in scope:
         for call in [n for n in ast.walk(m.tree) if isinstance(n, ast.Call)]:
-            opn = kwarg(call, "operation")
-            mem = _ops_member(opn) if opn is not None else None
-            if mem:
-                created.setdefault(mem, []).append((m, call))
+            # a member handed to any call (operation=Operations.X, or positionally to a helper that forwards it)
+            for arg in list(call.args) + [k.value for k in call.keywords]:
+                mem = _ops_member(arg)
+                if mem:
+                    created.setdefault(mem, []).append((m, call))
     for mem, sites in sorted(created.items()):
         if mem == "void":
             continue
@@ -243,20 +292,54 @@ def run(ctx: Ctx) -> None:
                   f"to_symbol[{member}] is {got!r} but the member is created by __{base}__ i.e. python '{PY_SYMBOL[base]}' "
                   f"(evaluation is eval(f'child_values[0] {{symbol}} child_values[1]'))",
                   construct=f"to_symbol[{member}]={got!r}", facts={"member": member, "symbol": got})
-    # the eval string has operands in order 0, 1
+    # the generic combination site: either eval(f"child_values[0] {symbol} child_values[1]") with symbol from to_symbol,
+    # or a module-level table {Operations.X: operator.<fn>} applied as TABLE[operation](left, right)
     evals = [c for c in calls_in(ev) if call_name(c) == "eval"]
-    if not evals:
-        raise AnchorError("no eval(...) combination site in _evaluate_single")
+    table_calls = [c for c in calls_in(ev) if isinstance(c.func, ast.Subscript) and isinstance(c.func.value, ast.Name)
+                   and u(c.func.slice) in ("operation", "op.operation") and len(c.args) == 2]
+    if not evals and not table_calls:
+        raise AnchorError("no generic combination site (eval(...) or TABLE[operation](left, right)) in _evaluate_single")
     for c in evals:
-        s = u(c.args[0]) if c.args else ""
-        ok = "child_values[0] {symbol} child_values[1]" in s
+        s_ = u(c.args[0]) if c.args else ""
+        ok = "child_values[0] {symbol} child_values[1]" in s_
         ctx.check("R3", ok, par, "AdParser._evaluate_single", c,
-                  "generic combination must be child_values[0] <symbol> child_values[1]", facts={"eval": s})
-        # symbol must come from to_symbol(operation)
-    for s in stmts_local(ev):
-        if isinstance(s, ast.Assign) and any(isinstance(t, ast.Name) and t.id == "symbol" for t in s.targets):
-            ok = isinstance(s.value, ast.Call) and call_name(s.value) == "to_symbol" and [u(a) for a in s.value.args] == ["operation"]
-            ctx.check("R3", ok, par, "AdParser._evaluate_single", s, "symbol must be Operations.to_symbol(operation)")
+                  "generic combination must be child_values[0] <symbol> child_values[1]", facts={"eval": s_})
+    for s_ in stmts_local(ev):
+        if isinstance(s_, ast.Assign) and any(isinstance(t, ast.Name) and t.id == "symbol" for t in s_.targets):
+            ok = isinstance(s_.value, ast.Call) and call_name(s_.value) == "to_symbol" and [u(a) for a in s_.value.args] == ["operation"]
+            ctx.check("R3", ok, par, "AdParser._evaluate_single", s_, "symbol must be Operations.to_symbol(operation)")
+    for c in table_calls:
+        tname = c.func.value.id
+        tdef = [st for st in par.tree.body if isinstance(st, (ast.Assign, ast.AnnAssign)) and u(st.targets[0] if isinstance(st, ast.Assign) else st.target) == tname]
+        if len(tdef) != 1 or not isinstance(tdef[0].value, ast.Dict):
+            raise Undecided(f"combination table {tname} is not a module-level dict literal")
+        tab = {}
+        for k_, v_ in zip(tdef[0].value.keys, tdef[0].value.values):
+            if k_ is not None and _ops_member(k_):
+                tab[_ops_member(k_)] = dotted(v_)
+        for base, member in dunder_member.items():
+            got = tab.get(member)
+            ctx.check("R3", got == f"operator.{base}", par, "<module>", tdef[0],
+                      f"{tname}[{member}] is {got} but the member is created by __{base}__ (python operator.{base})",
+                      construct=f"{tname}[{member}]={got}", facts={"member": member, "function": got})
+        # operands in order: (left, right) must resolve to child_values[0], child_values[1]
+        from ..core.astutil import parent_map as _pm
+        pmx = _pm(ev)
+        blk = c
+        while blk in pmx and not isinstance(blk, ast.match_case):
+            blk = pmx[blk]
+        bind = {}
+        for st in [n for n in ast.walk(blk) if isinstance(n, ast.Assign)]:
+            tg, val = st.targets[0], st.value
+            if isinstance(tg, ast.Tuple) and isinstance(val, ast.Tuple) and len(tg.elts) == len(val.elts):
+                for a_, b_ in zip(tg.elts, val.elts):
+                    bind[u(a_)] = u(b_)
+            elif isinstance(tg, ast.Name):
+                bind[tg.id] = u(val)
+        args_ = [bind.get(u(a_), u(a_)) for a_ in c.args]
+        ctx.check("R3", args_ == ["child_values[0]", "child_values[1]"], par, "AdParser._evaluate_single", c,
+                  f"generic combination must apply the operation to (child_values[0], child_values[1]); found {args_}",
+                  construct=f"{tname}[operation]({', '.join(args_)})")
 
     # ---------------- R4 flips ------------------------------------------------------------
     member_dunder = {v: k for k, v in dunder_member.items()}  # member -> base
@@ -354,6 +437,8 @@ def _check_flips(ctx: Ctx, par, case: ast.match_case, mems: list[str], member_du
             blk = pm[s]
             flags = [t.id for st in getattr(blk, "body", []) if isinstance(st, ast.Assign) and isinstance(st.value, ast.Constant)
                      and st.value.value is True for t in st.targets if isinstance(t, ast.Name)]
+            if isinstance(blk, ast.If) and isinstance(blk.test, ast.Name):
+                flags.append(blk.test.id)  # `flag = isinstance(...); if flag: reverse`
             uncomp = []
             for m in noncomm:
                 comp = False
@@ -416,63 +501,129 @@ def _tainted(e: ast.AST, tainted_names: set[str]) -> bool:
     return any(_tainted(c, tainted_names) for c in ast.iter_child_nodes(e))
 
 
-def _check_previous(ctx: Ctx, par, ev: ast.FunctionDef) -> None:
-    n = 0
-    for iff in [x for x in walk_local(ev) if isinstance(x, ast.If)]:
-        t = u(iff.test)
-        if "is_previous_iterate" in t or "is_previous_time" in t:
-            if not (isinstance(iff.test, ast.BoolOp) and isinstance(iff.test.op, ast.Or)
-                    and {u(v) for v in iff.test.values} == {"op.is_previous_iterate", "op.is_previous_time"}):
-                ctx.check("R5", False, par, "AdParser._evaluate_single", iff.test,
-                          "leaf arm must test `op.is_previous_iterate or op.is_previous_time` (both shifts store values, neither has a derivative)",
-                          facts={"test": t})
-                n += 1
-                continue
-            n += 1
-            tainted: set[str] = set()
-            for s in [x for b in iff.body for x in ast.walk(b) if isinstance(x, ast.stmt)]:
-                if isinstance(s, ast.Assign) and _tainted(s.value, tainted):
-                    for tg in assigned_targets(s):
-                        if isinstance(tg, ast.Name):
-                            tainted.add(tg.id)
-            rets = [x for b in iff.body for x in ast.walk(b) if isinstance(x, ast.Return)]
-            if not rets:
-                raise Undecided("previous time/iterate arm without return")
-            for r in rets:
-                ok = r.value is not None and not _tainted(r.value, tainted)
-                ctx.check("R5", ok, par, "AdParser._evaluate_single", r,
-                          "leaf at a previous time step/iterate returns a value derived from ad_base (would carry a Jacobian / current values)",
-                          facts={"returns": u(r.value) if r.value else None, "tainted_locals": sorted(tainted)})
-            # the else arm is the current-state arm: must read ad_base at dofs_of([op])
-            for r in [x for b in iff.orelse for x in ast.walk(b) if isinstance(x, ast.Return)]:
-                ok = r.value is not None and isinstance(r.value, ast.Subscript) and u(r.value.value) == "ad_base" \
-                    and "dofs_of([op])" in u(r.value.slice)
-                ctx.check("R5", ok, par, "AdParser._evaluate_single", r,
-                          "current-state variable leaf must be ad_base[equation_system.dofs_of([op])]",
-                          facts={"returns": u(r.value) if r.value else None})
-    if n < 2:
-        raise AnchorError("expected two previous time/iterate leaf arms (MixedDimensionalVariable, Variable)")
-    # ordering contract inside the leaf arm: values of leaves are placed with `dofs_of` (argument order, the order of
-    # op.sub_vars); readers with a different ordering contract (get_variable_values: global dof order) permute the
-    # values of md-variables whose creation order differs from the grid order.
+def _terminal(stmts: list) -> bool:
+    return bool(stmts) and isinstance(stmts[-1], (ast.Return, ast.Raise, ast.Continue))
+
+
+def _path_conditions(pm: dict, node: ast.AST, stop: ast.AST) -> list:
+    """(test, polarity) pairs that hold at `node` by structure: enclosing ifs, and preceding sibling ifs whose taken
+    arm always leaves the block (early return / raise)."""
+    out = []
+    cur = node
+    while cur is not stop and cur in pm:
+        par_ = pm[cur]
+        for fld in ("body", "orelse"):
+            blk = getattr(par_, fld, None)
+            if isinstance(blk, list) and any(cur is s_ for s_ in blk):
+                if isinstance(par_, ast.If):
+                    out.append((par_.test, fld == "body"))
+                for prev in blk:
+                    if prev is cur:
+                        break
+                    if isinstance(prev, ast.If):
+                        if _terminal(prev.body) and not _terminal(prev.orelse):
+                            out.append((prev.test, False))
+                        elif _terminal(prev.orelse) and not _terminal(prev.body):
+                            out.append((prev.test, True))
+        cur = par_
+    return out
+
+
+def _prev_polarity(test: ast.expr):
+    """None if the test is not about previous time/iterate; else (polarity_of_test_being_true, is_full_disjunction)."""
+    t = test
+    neg = False
+    while isinstance(t, ast.UnaryOp) and isinstance(t.op, ast.Not):
+        t, neg = t.operand, not neg
+    txt = u(t)
+    if "is_previous_iterate" not in txt and "is_previous_time" not in txt:
+        return None
+    full = isinstance(t, ast.BoolOp) and isinstance(t.op, ast.Or) and {u(v) for v in t.values} == {"op.is_previous_iterate", "op.is_previous_time"}
+    return (not neg), full
+
+
+def _leaf_region(par, ev: ast.FunctionDef):
+    """statements that evaluate a leaf: the body of `if op.is_leaf():` or, when that body only delegates to a private
+    method (`return self._evaluate_leaf(op, ad_base, equation_system)`), the body of that method."""
     leaf = [i for i in ev.body if isinstance(i, ast.If) and "is_leaf" in u(i.test)]
     if not leaf:
         raise AnchorError("_evaluate_single: leaf arm not found")
+    body = leaf[0].body
+    if len(body) == 1 and isinstance(body[0], ast.Return) and isinstance(body[0].value, ast.Call) \
+            and isinstance(body[0].value.func, ast.Attribute) and u(body[0].value.func.value) == "self":
+        name = body[0].value.func.attr
+        helper = par.get(f"AdParser.{name}")
+        if helper is None:
+            raise Undecided(f"_evaluate_single delegates leaves to self.{name}, which was not found")
+        args = [u(a_) for a_ in body[0].value.args]
+        params = [p_.arg for p_ in helper.args.args][1:]
+        if args != params[:len(args)] or not {"op", "ad_base", "equation_system"} <= set(params):
+            raise Undecided(f"leaf helper {name}: parameters are not passed through under the same names")
+        return helper, helper.body, f"AdParser.{name}"
+    return ev, body, "AdParser._evaluate_single"
+
+
+def _check_previous(ctx: Ctx, par, ev: ast.FunctionDef) -> None:
+    from ..core.astutil import parent_map
+    root, region, q = _leaf_region(par, ev)
+    pm = parent_map(root)
+    tainted: set[str] = set()
+    for _ in range(3):
+        for s_ in [x for b in region for x in ast.walk(b) if isinstance(x, ast.Assign)]:
+            if _tainted(s_.value, tainted):
+                for tg in assigned_targets(s_):
+                    if isinstance(tg, ast.Name):
+                        tainted.add(tg.id)
+    n_prev = n_cur = 0
+    for r in [x for b in region for x in ast.walk(b) if isinstance(x, ast.Return)]:
+        conds = _path_conditions(pm, r, root)
+        pol = None
+        for test, holds in conds:
+            pp_ = _prev_polarity(test)
+            if pp_ is None:
+                continue
+            test_pol, full = pp_
+            if not full:
+                ctx.check("R5", False, par, q, test,
+                          "leaf arm must test `op.is_previous_iterate or op.is_previous_time` (both shifts store values, neither has a derivative)",
+                          facts={"test": u(test)})
+            pol = test_pol if holds else (not test_pol)
+        if pol is None:
+            continue  # other leaves (discretizations, wrapped data)
+        if r.value is None:
+            raise Undecided("bare return in a variable leaf arm")
+        if pol:
+            n_prev += 1
+            ok = not _tainted(r.value, tainted)
+            ctx.check("R5", ok, par, q, r,
+                      "leaf at a previous time step/iterate returns a value derived from ad_base (would carry a Jacobian / current values)",
+                      facts={"returns": u(r.value), "tainted_locals": sorted(tainted)})
+        else:
+            n_cur += 1
+            ok = isinstance(r.value, ast.Subscript) and u(r.value.value) == "ad_base" and "dofs_of([op])" in u(r.value.slice)
+            ctx.check("R5", ok, par, q, r, "current-state variable leaf must be ad_base[equation_system.dofs_of([op])]",
+                      facts={"returns": u(r.value)})
+    if n_prev < 2 or n_cur < 2:
+        raise AnchorError(f"expected two previous and two current variable leaf returns (MixedDimensionalVariable, Variable); found {n_prev}/{n_cur}")
+    # ordering contract inside the leaf arm: values of leaves are placed with `dofs_of` (argument order, the order of
+    # op.sub_vars); readers with a different ordering contract (get_variable_values: global dof order) permute the
+    # values of md-variables whose creation order differs from the grid order.
     used = []
-    for nd in ast.walk(leaf[0]):
-        if isinstance(nd, ast.Attribute) and isinstance(nd.value, ast.Name) and nd.value.id == "equation_system":
-            used.append(nd)
+    for b in region:
+        for nd in ast.walk(b):
+            if isinstance(nd, ast.Attribute) and isinstance(nd.value, ast.Name) and nd.value.id == "equation_system":
+                used.append(nd)
     for nd in used:
         if nd.attr in ("dofs_of", "mdg"):
             continue
         if nd.attr in ("get_variable_values", "get_variables", "variables"):
-            ctx.check("R5", False, par, "AdParser._evaluate_single", nd,
+            ctx.check("R5", False, par, q, nd,
                       f"leaf values are read with equation_system.{nd.attr} (global dof order) while the current-state arm indexes with "
                       f"dofs_of([op]) (order of op.sub_vars): the two orders differ when sub-variables were created in another order "
                       f"than the grids", construct=f"leaf arm uses equation_system.{nd.attr}")
         else:
-            raise Undecided(f"_evaluate_single leaf arm uses equation_system.{nd.attr}: unknown ordering contract")
-    ctx.check("R5", True, par, "AdParser._evaluate_single", leaf[0], "leaf arms place values only through dofs_of (argument order)",
+            raise Undecided(f"leaf arm uses equation_system.{nd.attr}: unknown ordering contract")
+    ctx.check("R5", True, par, q, region[0], "leaf arms place values only through dofs_of (argument order)",
               construct="leaf arm ordering contract", facts={"uses": sorted({n_.attr for n_ in used})})
 
 
@@ -494,31 +645,49 @@ def _check_prev_helper(ctx: Ctx, ops) -> None:
             neg = any(u(x) == "not prev_time" for x in (test.values if isinstance(test, ast.BoolOp) else [test]))
             want_pos = v.func.attr == "previous_timestep"
             cls_ok = ("TimeDependentOperator" in u(test)) if want_pos else ("IterativeOperator" in u(test))
-            steps = kwarg(v, "steps")
+            steps = kwarg(v, "steps") or (v.args[0] if v.args else None)
             ok = (pos if want_pos else neg) and cls_ok and steps is not None and u(steps) == "steps" and u(v.func.value) == "op"
             ctx.check("R5", ok, ops, q, r, f"{v.func.attr} must be dispatched under prev_time={'True' if want_pos else 'False'} "
                       f"for the matching operator class, forwarding steps", facts={"test": u(test), "call": u(v)})
             seen.add(v.func.attr)
     if seen != {"previous_timestep", "previous_iteration"}:
         raise AnchorError(f"{q}: dispatch arms not found")
-    # recursive rebuild of children
+    # recursive rebuild of children: a recursive call on each element of op.children (comprehension or loop), forwarding
+    # prev_time and steps (keyword or positional), collected into the `.children` of the copy
     rec = [c for c in calls_in(fn) if call_name(c) == q]
-    ok = False
+    params = [p_.arg for p_ in fn.args.args]
+
+    def forwards(c: ast.Call) -> bool:
+        got = {}
+        for i, a_ in enumerate(c.args):
+            if i < len(params):
+                got[params[i]] = u(a_)
+        for k in c.keywords:
+            if k.arg:
+                got[k.arg] = u(k.value)
+        return got.get("prev_time") == "prev_time" and got.get("steps") == "steps"
+
+    iter_ok = False
+    for n_ in walk_local(fn):
+        gens = []
+        if isinstance(n_, ast.ListComp):
+            gens = [(g.target, g.iter, n_.elt) for g in n_.generators[:1]]
+        elif isinstance(n_, ast.For):
+            calls_ = [c for c in ast.walk(n_) if isinstance(c, ast.Call) and call_name(c) == q]
+            gens = [(n_.target, n_.iter, c) for c in calls_]
+        for tgt, it, elt in gens:
+            if u(it) == "op.children" and isinstance(elt, ast.Call) and call_name(elt) == q and elt.args and u(elt.args[0]) == u(tgt) and forwards(elt):
+                iter_ok = True
     cons = None
-    for s in stmts_local(fn):
-        if isinstance(s, ast.Assign) and any(u(t).endswith(".children") for t in s.targets):
-            cons = s
-            if isinstance(s.value, ast.ListComp) and isinstance(s.value.elt, ast.Call) and call_name(s.value.elt) == q:
-                c = s.value.elt
-                gen = s.value.generators[0]
-                pt, st = kwarg(c, "prev_time"), kwarg(c, "steps")
-                ok = (u(gen.iter) == "op.children" and c.args and u(c.args[0]) == u(gen.target)
-                      and pt is not None and u(pt) == "prev_time" and st is not None and u(st) == "steps")
-    ctx.check("R5", ok and bool(rec), ops, q, cons or fn,
+    for s_ in stmts_local(fn):
+        if isinstance(s_, ast.Assign) and any(u(t).endswith(".children") for t in s_.targets):
+            cons = s_
+    ok = iter_ok and cons is not None and bool(rec) and all(forwards(c) for c in rec)
+    ctx.check("R5", ok, ops, q, cons or fn,
               "inner nodes must be copied with children rebuilt by the recursion over op.children forwarding prev_time and steps",
-              construct=u(cons) if cons else "children rebuild missing")
+              construct="children rebuilt recursively over op.children" if ok else (u(cons) if cons else "children rebuild missing"))
     # leaves returned unchanged
-    leaf_ok = any(isinstance(i, ast.If) and "is_leaf()" in u(i.test) and any(isinstance(x, ast.Return) and u(x.value) == "op" for x in i.body)
+    leaf_ok = any(isinstance(i, ast.If) and "is_leaf()" in u(i.test) and any(isinstance(x, ast.Return) and x.value is not None and u(x.value) == "op" for x in i.body)
                   for i in walk_local(fn))
     ctx.check("R5", leaf_ok, ops, q, fn, "time/iterate-independent leaves are returned unchanged", construct="leaf arm")
 
